@@ -25,6 +25,14 @@ MUTATION_WEIGHTS = {
     "delete_column": 5, "set_column": 2, "clear": 0.3, "row_edit": 6, "cell_edit": 4,
 }
 
+# ops without grid semantics: weight per property
+RAW_WEIGHTS = {
+    "C02": {"rstrip": 3, "optimize_width": 3, "transpose": 2, "set_span": 2, "del_span": 1, "live_row_rep": 4, "live_cell_rep": 4},
+    # C07 quantifies over histories of public Table/Row operations: the
+    # repeated-setters on live wrappers (C02's quantifier) are not in it
+    "C07": {"rstrip": 3, "optimize_width": 3, "transpose": 2, "set_span": 2, "del_span": 1},
+}
+
 READ_KINDS = ["get_row", "get_cell", "get_value", "traverse", "get_values", "get_column", "columns",
               "get_rows", "get_cells", "get_column_cells", "get_row_values"]
 
@@ -51,7 +59,7 @@ class TableEngine:
         cfg["obs_mode"] = "full" if prop == "C01" else rng.choice(["full", "full", "light", "sparse"], "obs_mode")
         cfg["attached"] = rng.chance(0.3, "attached")
         cfg["family"] = rng.weighted([("empty", 2), ("prefilled", 2), ("rle", 6), ("sample", 2)], "family")
-        names = sorted(MUTATION_WEIGHTS)
+        names = sorted(MUTATION_WEIGHTS) + sorted(RAW_WEIGHTS.get(prop, {}))
         if rng.chance(0.5, "subset"):
             k = rng.randint(3, len(names), "subset_k")
             cfg["ops"] = sorted(rng.sample(names, k, "subset_ops"))
@@ -74,6 +82,7 @@ class TableEngine:
         self.n_restart = 0
         self.n_warm_mut = 0
         self._last_was_read = False
+        self._pre_height = 0
 
     def close(self):
         pass
@@ -180,6 +189,8 @@ class TableEngine:
         if beyond:
             opts.append(("edge", 2 if H else 5))
             opts.append(("beyond", 10 * self.cfg["p_beyond"]))
+        if not opts:
+            return 0
         k = rng.weighted(opts, "ykind")
         if k == "in":
             return rng.randint(0, H - 1, "y")
@@ -212,6 +223,8 @@ class TableEngine:
         if beyond:
             opts.append(("edge", 2 if rw else 5))
             opts.append(("beyond", 10 * self.cfg["p_beyond"]))
+        if not opts:
+            return 0
         k = rng.weighted(opts, "xkind")
         if k == "in":
             return rng.randint(0, rw - 1, "x")
@@ -241,6 +254,8 @@ class TableEngine:
         if beyond:
             opts.append(("edge", 2 if W else 5))
             opts.append(("beyond", 10 * self.cfg["p_beyond"]))
+        if not opts:
+            return 0
         k = rng.weighted(opts, "ckind")
         if k == "in":
             return rng.randint(0, W - 1, "cx")
@@ -249,6 +264,21 @@ class TableEngine:
         if k == "edge":
             return W
         return W + rng.randint(1, 3, "cgap")
+
+    def _area(self, rng, tv, small=False):
+        W, H = max(1, tv.width), max(1, tv.height)
+        x = rng.randint(0, W - 1, "ax")
+        y = rng.randint(0, H - 1, "ay")
+        if small:
+            z = x + rng.choice([0, 1, 1, 2], "adx")
+            t = y + rng.choice([0, 1, 1, 2], "ady")
+        else:
+            z = rng.randint(x, W, "az")
+            t = rng.randint(y, H, "at")
+        a = {"a": [x, y, z, t]}
+        if rng.chance(self.cfg["p_strform"], "aform"):
+            a["form"] = "s"
+        return a
 
     def _form(self, rng):
         return "s" if rng.chance(self.cfg["p_strform"], "form") else "t"
@@ -350,7 +380,9 @@ class TableEngine:
         D = cfg["max_dim"]
         weights = []
         for name in cfg["ops"]:
-            w = MUTATION_WEIGHTS[name]
+            w = MUTATION_WEIGHTS.get(name)
+            if w is None:
+                w = RAW_WEIGHTS.get(self.prop, {}).get(name, 0)
             if H > D + 4 and name in ("insert_row", "append_row", "extend_rows", "set_row"):
                 w *= 0.2
             if H > D + 4 and name == "delete_row":
@@ -487,12 +519,46 @@ class TableEngine:
             op["to"] = dict(op["c"]) if rng.chance(0.6, "same_c") else self._coord(rng, tv)
             if rng.chance(0.3, "noclone"):
                 op["clone"] = False
+        elif name == "rstrip":
+            if rng.chance(0.5, "aggr"):
+                op["aggressive"] = True
+        elif name == "optimize_width":
+            pass
+        elif name == "transpose":
+            if rng.chance(0.4, "tarea"):
+                op["area"] = self._area(rng, tv)
+        elif name == "set_span":
+            op["area"] = self._area(rng, tv, small=True)
+            if rng.chance(0.3, "merge"):
+                op["merge"] = True
+        elif name == "del_span":
+            op["c"] = self._coord(rng, tv, beyond=False) if tv.height else {"x": 0, "y": 0}
+        elif name == "live_row_rep":
+            op["y"] = self._pick_y(rng, tv, beyond=False) if tv.height else 0
+            op["k"] = rng.choice([1, 1, 2, 3, self.cfg["max_rep"]], "k")
+        elif name == "live_cell_rep":
+            op["c"] = self._coord(rng, tv, beyond=False) if tv.height else {"x": 0, "y": 0}
+            op["k"] = rng.choice([1, 1, 2, 3, self.cfg["max_rep"]], "k")
+        # the same argument object used a second time (clone=True promises a copy)
+        if op.get("clone", True) and rng.chance(0.12, "again?"):
+            if name in ("set_cell", "insert_cell") and op.get("cell") is not None:
+                op["again"] = {"c": self._coord(rng, tv)}
+            elif name in ("append_cell",) and op.get("cell") is not None:
+                op["again"] = {"y": self._pick_y(rng, tv)}
+            elif name in ("set_row", "insert_row", "set_row_cells") and op.get("row", True) is not None:
+                op["again"] = {"y": self._pick_y(rng, tv)}
+            elif name == "append_row" and op.get("row") is not None:
+                op["again"] = {}
+            elif name == "set_cells" and len(op["cells"]) > 1 and op["cells"][0]:
+                op["share"] = True
         # coordinate forms for y / x arguments
         if "y" in op and name not in ("row_edit",) and self._form(rng) == "s":
             op["yform"] = "s"
         if "x" in op and self._form(rng) == "s":
             op["xform"] = "s"
         op["obs"] = self._obs_plan(rng, tv)
+        if name in ("live_row_rep", "live_cell_rep"):
+            op["obs"]["level"] = "full"  # attribute a divergence to this very step
         return op
 
     # ------------------------------------------------------------------ step
@@ -513,11 +579,14 @@ class TableEngine:
             self._outcome = "init"
             return self._oracles(op, tv, [], None, {}, initial=True)
         tv = self.sut.view()
+        self._pre_height = tv.height
         feats = ts.features(op, tv) if name in ts.GRID_MUTATIONS else []
         self.stats.transitions.add((ts.shape_class(tv), name if name != "read" else "read:" + op["kind"], tuple(feats)))
         for f in feats:
             self.stats.probe("feat:" + f)
         self.stats.probe("op:" + name)
+        if name in ts.RAW_MUTATIONS:
+            self.n_mut += 1
         if name in ts.GRID_MUTATIONS:
             self.n_mut += 1
             if any(f in feats for f in ("row_run", "cell_run", "col_run", "src_row_run")):
@@ -561,6 +630,9 @@ class TableEngine:
                 # not this property's business: rebuild and go on (deliberately narrow)
                 self.stats.probe("sut_raised_skipped")
                 self.resync()
+                # a half-applied operation may legitimately leave the XML
+                # structurally odd: re-baseline the structural rules
+                self.disabled_rules |= {r for r, _ in xmlref.table_wellformed(ts.lx(self.sut.table))}
                 return []
             if prop == "C02":
                 vs += self._oracle_c02(op, opname, feats)
@@ -657,6 +729,9 @@ class TableEngine:
         problems = xmlref.table_wellformed(ts.lx(t))
         for rule, det in problems:
             if rule in self.disabled_rules:
+                continue
+            if rule == "rows-without-columns" and self._pre_height != 0:
+                # the property only says: adding the FIRST row declares the columns
                 continue
             vs.append(Violation("C07", rule, opname, feats, None, det))
             return vs
